@@ -106,7 +106,8 @@ theorem c01_rewrite_sound
     (houts : F.outs = L.outs)
     (hFreads : ∀ i ∈ F.reads, i ∉ outsAll (pre.filter fun o => sub.contains o.oid))
     (hguards : guardsOk (pre ++ L :: post) graphOuts sub L.outs = true)
-    (hsem : ∀ E : Env V, (∀ i ∈ outsAll (pre.filter (fun o => sub.contains o.oid) ++ [L]), E i = none) →
+    (hsem : ∀ E : Env V, (∀ i, i ∉ outsAll (pre ++ L :: post) → E i = env i) →
+        (∀ i ∈ outsAll (pre.filter (fun o => sub.contains o.oid) ++ [L]), E i = none) →
         ∀ j ∈ L.outs, run sem (pre.filter (fun o => sub.contains o.oid) ++ [L]) E j = step sem E F j) :
     ∀ o ∈ graphOuts,
       run sem (pre ++ L :: post) env o = run sem (fuse (pre ++ L :: post) sub L.oid F) env o := by
